@@ -78,6 +78,21 @@ pub fn run_lane_n(prop: &str, seed: u64, run: u64) -> RunReport {
     let out = exec::execute(&init, &mut src, false, prop);
     let mut stats = out.stats;
     exec::bump(&mut stats, &format!("shape:{}", shape));
+    if let crate::ops::Init::Bytes(b) = &init {
+        if let Ok(d) = crate::codec::decode(b) {
+            if d.layout.max_hops >= 16 {
+                exec::bump(&mut stats, "probe:packet_with_16_hop_pointer_chain");
+            } else if d.layout.max_hops >= 8 {
+                exec::bump(&mut stats, "probe:packet_with_8plus_hop_pointer_chain");
+            }
+            if b.len() > 8192 {
+                exec::bump(&mut stats, "probe:packet_larger_than_8192");
+            }
+            if b.len() > 65535 - 255 {
+                exec::bump(&mut stats, "probe:packet_within_255_of_65535");
+            }
+        }
+    }
     for (i, n) in src.faults_requested.iter().enumerate() {
         if *n > 0 {
             *stats
